@@ -456,6 +456,9 @@ Fixpoint scanp (flt : efilter) (pre : list block) (n start to skip room : N) : l
         end
   end.
 
+(* blockchain.PreConfirmedFilterSentinel = math.MaxUint64 *)
+Definition sentinel : N := 18446744073709551615.
+
 Definition do_query_pre (s0 : state) (flt : efilter) (from to chunk limit : N) (tok : N * N)
     (pre : list block) : state * out :=
   match chain s0, pre with
@@ -473,10 +476,46 @@ Definition do_query_pre (s0 : state) (flt : efilter) (from to chunk limit : N) (
             if negb (tok_none t1) then (s1, OPage evs t1)
             else
               let skip' := if start <=? latest then 0 else skip in
-              let (evp, tp) := scanp flt pre (latest + 1) start to skip' (chunk - lenN evs) in
+              (* from_block = pre_confirmed (sentinel): only the most recent pre-confirmed block *)
+              let pstart := if start =? sentinel then latest + lenN pre else start in
+              let (evp, tp) := scanp flt pre (latest + 1) pstart to skip' (chunk - lenN evs) in
               (s1, OPage (evs ++ evp) tp)
         | r => r
         end
+  end.
+
+(* ---------- rpc/v8|v9|v10 events.go: starknet_getEvents range resolution (setEventFilterRange) ----------
+   BResolved: a block hash or l1_accepted, looked up in the database by the handler (None = not found). *)
+Inductive bid :=
+  | BAbsent
+  | BLatest
+  | BPreConfirmed
+  | BNumber (n : N)
+  | BResolved (r : option N).
+
+(* only a numeric to_block is bounded by the head; a numeric from_block above the head stays as it is
+   (the range is then empty unless pre-confirmed blocks are asked for) *)
+Definition resolve_bid (is_to : bool) (latest dflt : N) (b : bid) : option N :=
+  match b with
+  | BAbsent => Some dflt
+  | BLatest => Some latest
+  | BPreConfirmed => Some sentinel
+  | BNumber n => Some (if is_to then N.min n latest else n)
+  | BResolved r => r
+  end.
+
+(* None = BLOCK_NOT_FOUND; Some OErr = internal error; the filter starts as [0, latest] *)
+Definition do_rpc_events (s : state) (flt : efilter) (fb tb : bid) (chunk limit : N) (tok : N * N)
+    (pre : list block) : state * option out :=
+  match chain s with
+  | [] => (s, Some OErr)
+  | _ =>
+      let latest := lenN (chain s) - 1 in
+      match resolve_bid false latest 0 fb, resolve_bid true latest latest tb with
+      | Some from, Some to =>
+          let (s', o) := do_query_pre s flt from to chunk limit tok pre in (s', Some o)
+      | _, _ => (s, None)
+      end
   end.
 
 Definition step (s : state) (o : op) : state * out :=
